@@ -123,6 +123,16 @@ CHECKS["C02"] = dict(
     technique="Lean 4 proof (dedup-by-key representatives, rational arithmetic, integer separation lemma) + structural/behavioural correspondence + distinct-row oracle",
 )
 
+CHECKS["C03"] = dict(
+    category="proof",
+    text="Lean 4 theorems (partial): exact characterisation of when the multi-fact path is taken; without query filters every sub-query of the joint plan IS (syntactically) the plan of the query requesting that model's metrics alone, so its rows do not depend on the companions; "
+         "keyed FULL OUTER JOIN lemmas (groups = union of the groups, one row per group, each carrying the single queries' values or NULL); proved negation for filters (a filter on one metric model is not shared, F4b). "
+         "Tie: SQLGenerator vs Lean needsPreagg/genPreagg/genJoin (decision, structural incl. nested CTEs, behavioural). Search: the property's own relation on the real code — joint rows vs the NULL-safe outer union of the per-metric-model queries.",
+    design_ref="DESIGN.md §4 C03",
+    note="Partial: the theorem for sub-queries requires q.filters = []; the row-level fullOuter evaluator is related to the abstract keyed outer-union lemmas only by correspondence; 3+ metric models joined on the first sub-query's columns are not generated. Known findings F4, F4b, F27, F28 and the C02 findings apply.",
+    technique="Lean 4 proof (plan equality of sub-queries, keyed outer-union lemmas) + correspondence + metamorphic joint-vs-single oracle on DuckDB",
+)
+
 NOT_APPLICABLE = {}
 
 
